@@ -1332,6 +1332,9 @@ class Logger:
                         async def athrow(self, *args, **kwargs):
                             return await self._gen.athrow(*args, **kwargs)
 
+                        async def aclose(self):
+                            return await self._gen.aclose()
+
                     def catch_wrapper(*args, **kwargs):
                         gen = function(*args, **kwargs)
                         return AsyncGenCatchWrapper(gen)
